@@ -31,7 +31,13 @@ def _cmp(op, a, b):
 
 
 class Region:
-    def __init__(self, body, call_oracle, event_of):
+    field_oracle = None
+
+    def __init__(self, body, call_oracle, event_of, field_oracle=None):
+        self.field_oracle = field_oracle
+        self._init(body, call_oracle, event_of)
+
+    def _init(self, body, call_oracle, event_of):
         """call_oracle(term, argvals, env) -> value | UNKNOWN ; event_of(kind, bb, idx, node, env, get) -> label | None.
         An event ends the path (it is a terminal decision)."""
         self.b = body
@@ -52,6 +58,22 @@ class Region:
                 f = p['p'][-1]['f']
                 if f < len(v[1]):
                     return v[1][f]
+        # payload of a known Option value: (x as Some).0
+        if len(p['p']) >= 2 and isinstance(p['p'][-1], dict) and 'f' in p['p'][-1] and isinstance(p['p'][-2], dict) and p['p'][-2].get('dc') == 'Some':
+            v = self.get(env, {'l': p['l'], 'p': p['p'][:-2]})
+            if isinstance(v, tuple) and v and v[0] == 'some':
+                return v[1]
+        # payloads of Result / ControlFlow values: (x as Ok).0, (x as Err).0, (x as Continue).0, (x as Break).0
+        if len(p['p']) >= 2 and isinstance(p['p'][-1], dict) and 'f' in p['p'][-1] and isinstance(p['p'][-2], dict) and p['p'][-2].get('dc') in ('Ok', 'Err', 'Continue', 'Break'):
+            v = self.get(env, {'l': p['l'], 'p': p['p'][:-2]})
+            want = {'Ok': 'ok', 'Err': 'err', 'Continue': 'cf-continue', 'Break': 'cf-break'}[p['p'][-2]['dc']]
+            if isinstance(v, tuple) and v and v[0] == want:
+                return v[1]
+        # caller-supplied symbolic fields (e.g. the `timeout` field of the statistics)
+        if self.field_oracle is not None and p['p']:
+            fv = self.field_oracle(p, env)
+            if fv is not UNKNOWN:
+                return fv
         # deref of a known reference
         if p['p'] and p['p'][-1] == '*':
             v = self.get(env, {'l': p['l'], 'p': p['p'][:-1]})
@@ -106,6 +128,25 @@ class Region:
             return UNKNOWN
         if k == 'agg' and rv.get('ak') == 'tuple':
             return ('tuple', tuple(self.opval(env, o) for o in rv['ops']))
+        if k == 'discr':
+            v = self.get(env, rv['place'])
+            if v == 'none':
+                return 0
+            if isinstance(v, tuple) and v and v[0] == 'some':
+                return 1
+            if isinstance(v, tuple) and v and v[0] in ('ok', 'err'):
+                return 0 if v[0] == 'ok' else 1
+            if isinstance(v, tuple) and v and v[0] in ('cf-continue', 'cf-break'):
+                return 0 if v[0] == 'cf-continue' else 1
+            return UNKNOWN
+        if k == 'agg' and rv.get('ak') == 'adt':
+            ops = [self.opval(env, o) for o in rv['ops']]
+            adt, var = rv.get('adt') or '', rv.get('v')
+            if adt == 'std::option::Option':
+                return 'none' if var == 'None' else ('some', ops[0] if ops else UNKNOWN)
+            if adt == 'std::result::Result':
+                return ('ok', ops[0] if ops else UNKNOWN) if var == 'Ok' else ('err', ops[0] if ops else UNKNOWN)
+            return ('adt', adt.split('::')[-1], var)
         if k == 'cast':
             v = self.opval(env, rv['op'])
             return v if isinstance(v, int) and not isinstance(v, bool) else UNKNOWN
@@ -187,3 +228,103 @@ class Region:
                 # unreachable / resume / other: path ends
                 pass
         return events, silent, False
+
+
+def returns(mir, body, env0, call_oracle, field_oracle=None, depth=3):
+    """the set of abstract values the body can return when started with env0 (closures handed to the Option / bool / Result
+    adaptors of std are evaluated recursively; everything else goes to call_oracle)"""
+    from .facts import strip_generics, callee_name, op_place
+    from . import mirq
+    rets = set()
+
+    def closure_body(b, op):
+        p = op_place(op)
+        if p is None or p['p']:
+            return None, None
+        k, v = mirq.chase(b, p['l'])
+        if k == 'rv' and v[2]['rv']['k'] == 'agg' and v[2]['rv'].get('ak') == 'closure':
+            return mir.by_id.get(v[2]['rv'].get('def')), v[2]['rv']
+        return None, None
+
+    def run_closure(b, op, args, env):
+        cb, agg = closure_body(b, op)
+        if cb is None or depth <= 0:
+            return {UNKNOWN}
+        e0 = {}
+        for i, a in enumerate(args):
+            if a is not UNKNOWN:
+                e0['_%d' % (2 + i)] = a
+        # captured values: field i of the environment reference _1
+        caps = [R0.opval(env, o) for o in (agg.get('ops') or [])]
+        if caps:
+            e0['_1'] = ('ref', '#env')
+            e0['#env'] = ('tuple', tuple(caps))
+        return returns(mir, cb, e0, call_oracle, field_oracle, depth - 1)
+
+    pending = {}
+
+    def oracle(t, vals, env):
+        nm = strip_generics(callee_name(t) or '')
+        if nm == 'std::option::Option::map_or' and len(vals) == 3:
+            if vals[0] == 'none':
+                return vals[1]
+            if isinstance(vals[0], tuple) and vals[0][0] == 'some':
+                r = run_closure(R0.b, t['args'][2], [vals[0][1]], env)
+                return next(iter(r)) if len(r) == 1 else UNKNOWN
+            return UNKNOWN
+        if nm in ('std::option::Option::is_some_and',) and len(vals) == 2:
+            if vals[0] == 'none':
+                return False
+            if isinstance(vals[0], tuple) and vals[0][0] == 'some':
+                r = run_closure(R0.b, t['args'][1], [vals[0][1]], env)
+                return next(iter(r)) if len(r) == 1 else UNKNOWN
+            return UNKNOWN
+        if nm == 'core::bool::<impl bool>::then_some' and len(vals) == 2:
+            if isinstance(vals[0], bool):
+                return ('some', vals[1]) if vals[0] else 'none'
+            return UNKNOWN
+        if nm == 'std::option::Option::ok_or' and len(vals) == 2:
+            if vals[0] == 'none':
+                return ('err', vals[1])
+            if isinstance(vals[0], tuple) and vals[0][0] == 'some':
+                return ('ok', vals[0][1])
+            return UNKNOWN
+        if nm in ('std::option::Option::is_none', 'std::option::Option::is_some') and vals:
+            v = vals[0]
+            if isinstance(v, tuple) and v[0] == 'ref':
+                v = env.get(v[1], UNKNOWN)
+            if v == 'none':
+                return nm.endswith('is_none')
+            if isinstance(v, tuple) and v and v[0] == 'some':
+                return nm.endswith('is_some')
+            return UNKNOWN
+        if nm.endswith('Try>::branch') or nm == 'std::ops::Try::branch':
+            v = vals[0] if vals else UNKNOWN
+            if isinstance(v, tuple) and v and v[0] == 'ok':
+                return ('cf-continue', v[1])
+            if isinstance(v, tuple) and v and v[0] == 'err':
+                return ('cf-break', ('err', v[1]))
+            if isinstance(v, tuple) and v and v[0] == 'some':
+                return ('cf-continue', v[1])
+            if v == 'none':
+                return ('cf-break', 'none')
+            return UNKNOWN
+        if nm.endswith('::from_residual'):
+            return vals[0] if vals else UNKNOWN
+        return call_oracle(t, vals, env)
+
+    def event(kind, bb, idx, node, env, R):
+        if kind == 'term' and node['k'] == 'return':
+            v = R.get(env, {'l': 0, 'p': []})
+            return ('ret', repr(v))
+        return None
+
+    R0 = Region(body, oracle, event, field_oracle)
+    evs, silent, over = R0.run(0, dict(env0))
+    out = set()
+    for e in evs:
+        if isinstance(e, tuple) and e[0] == 'ret':
+            out.add(eval(e[1]) if e[1] != 'None' else UNKNOWN)
+    if over:
+        out.add(UNKNOWN)
+    return out
